@@ -20,7 +20,10 @@ import (
 var (
 	ErrClosed = errors.New("simnet: use of closed transport")
 	ErrPeer   = io.ErrClosedPipe
-	ErrFault  = errors.New("simnet: injected fault")
+	ErrFault  error = &faultErr{}
+	// ErrFaultTemporary is an injected fault that describes itself as a timeout / temporary
+	// condition (like os.ErrDeadlineExceeded or ETIMEDOUT do); errors.Is(it, ErrFault) holds.
+	ErrFaultTemporary error = &faultErr{temporary: true}
 	ErrReset  = errors.New("simnet: connection reset by peer (injected)")
 )
 
@@ -65,6 +68,18 @@ func (c *ChunkRand) Next(avail, want int) int {
 	return min(min(avail, want), 1+int(z%uint64(c.K)))
 }
 
+type faultErr struct{ temporary bool }
+
+func (f *faultErr) Error() string {
+	if f.temporary {
+		return "simnet: injected fault (i/o timeout)"
+	}
+	return "simnet: injected fault"
+}
+func (f *faultErr) Timeout() bool       { return f.temporary }
+func (f *faultErr) Temporary() bool     { return f.temporary }
+func (f *faultErr) Is(target error) bool { _, ok := target.(*faultErr); return ok }
+
 // FaultKind enumerates injected fail-stop faults.
 type FaultKind int
 
@@ -102,7 +117,10 @@ func (k FaultKind) FailStop() bool { return k != FaultWriteErrOnly && k != Fault
 type Fault struct {
 	Kind   FaultKind
 	Offset int64 // byte offset in the outgoing (write kinds) or incoming (other kinds) stream
-	fired  bool
+	// Temporary makes the injected read/write error describe itself as a timeout (Timeout() and
+	// Temporary() report true). The endpoint is dead all the same.
+	Temporary bool
+	fired     bool
 }
 
 // Opts configures a Pair.
@@ -196,6 +214,7 @@ type End struct {
 
 	inW, inR, maxW, maxR int32
 	parkedW              int32
+	deadReads            int32 // reads issued after the endpoint had failed
 	dead                 chan struct{}
 	deadOnce             sync.Once
 }
@@ -372,6 +391,9 @@ func (e *End) Write(p []byte) (n int, err error) {
 	if f := e.fault; f != nil && f.Kind.IsWrite() && !f.fired && f.Offset >= off && f.Offset < off+int64(len(p)) {
 		f.fired = true
 		ferr = ErrFault
+		if f.Temporary {
+			ferr = ErrFaultTemporary
+		}
 		if f.Kind == FaultWritePartial || f.Kind == FaultWritePartialOnly {
 			data = p[:f.Offset-off]
 		} else {
@@ -416,7 +438,7 @@ func (e *End) Write(p []byte) (n int, err error) {
 	e.wmu.Unlock()
 	if ferr != nil {
 		if e.faultKind().FailStop() {
-			e.failStop(ErrFault, false)
+			e.failStop(ferr, false)
 		}
 		return n, ferr
 	}
@@ -536,6 +558,18 @@ func (e *End) Read(b []byte) (n int, err error) {
 	defer p.mu.Unlock()
 	for {
 		if c, cerr := e.isClosed(); c {
+			// a caller that keeps re-issuing reads on a dead endpoint gets the error a bounded number
+			// of times; after that the read just hangs until Close (no busy loop, a state to judge)
+			if n := atomic.AddInt32(&e.deadReads, 1); n > 50 {
+				p.mu.Unlock()
+				e.mu.Lock()
+				for !e.closed {
+					e.cond.Wait()
+				}
+				e.mu.Unlock()
+				p.mu.Lock()
+				return 0, ErrClosed
+			}
 			return 0, cerr
 		}
 		if !e.stalledR() {
@@ -573,6 +607,9 @@ func (e *End) Read(b []byte) (n int, err error) {
 			switch fault.Kind {
 			case FaultReadErr, FaultReadDataErr:
 				ferr = ErrFault
+				if fault.Temporary {
+					ferr = ErrFaultTemporary
+				}
 			case FaultPeerEOF:
 				ferr = io.EOF
 			case FaultPeerReset:
